@@ -863,9 +863,29 @@ func (s *State) applyFunction(name string, fn object.Object, args []object.Objec
 		log.Debugf("Cache miss for %s %v, not caching error result", function.CacheKey, args)
 		return res
 	}
+	if returnsClosure(res) {
+		// a function made by this call captures this call's variables: another call must get its own
+		// (counter(0) twice handed back one closure, and one counter).
+		return res
+	}
 	s.cache.Set(function.CacheKey, args, res, output)
 	log.Debugf("Cache miss for %s %v", function.CacheKey, args)
 	return res
+}
+
+func returnsClosure(o object.Object) bool {
+	switch o.Type() {
+	case object.FUNC:
+		return true
+	case object.ARRAY:
+		for _, e := range object.Elements(o) {
+			if returnsClosure(e) {
+				return true
+			}
+		}
+	default:
+	}
+	return false
 }
 
 func (s *State) extendFunctionEnv(
